@@ -58,18 +58,31 @@ def check_export(gd, res, layers, dist, completed_expected):
         undirected = all((b, a) in got for a, b in got)
         if bool(sym) != undirected:
             return "adjacency matrix symmetry does not match undirectedness"
+    # the labelled networkx export, also for an interrupted search when every listed edge (the added reversals included) is a real edge,
+    # i.e. on inverse-closed generator sets; asked for AFTER named_undirected_edges on every other run (a query must not disturb the next)
+    if res.bfs_completed or G.is_inverse_closed_ref(gd):
+        if len(el) % 2 == 0:
+            und = res.named_undirected_edges()
+            if und != {tuple(sorted([names[a], names[b]])) for a, b in el}:
+                return "named_undirected_edges differs from the edge list"
+            if [(int(a), int(b)) for a, b in res.edges_list.tolist()] != el:
+                return "edges_list changed after named_undirected_edges was called"
         nx = res.to_networkx_graph(directed=True)
         nxe = {(u, v) for u, v in nx.edges()}
         if nxe != {(names[a], names[b]) for a, b in el} or set(nx.nodes()) != set(names):
             return "networkx export differs from the edge list"
-        for u, v, lab in list(nx.edges(data="label"))[:40]:
-            a, b = names.index(u), names.index(v)
+        index = {nm: i for i, nm in enumerate(names)}
+        for u, v, lab in list(nx.edges(data="label"))[:400]:
+            a, b = index[u], index[v]
             ids = [i for i, x in enumerate(res.graph.generator_names) if x == lab]
             if not any(G.act(gd, i, states[a]) == states[b] for i in ids):
-                return "a networkx edge label names no generator mapping the source to the target"
+                return f"networkx edge label {lab!r} on ({u!r}, {v!r}) names no generator mapping the source to the target"
         und = res.named_undirected_edges()
         if und != {tuple(sorted([names[a], names[b]])) for a, b in el}:
             return "named_undirected_edges differs from the edge list"
+        dense2 = res.adjacency_matrix()
+        if {(int(a), int(b)) for a, b in zip(*np.nonzero(dense2))} != set(el):
+            return "adjacency matrix changed after other exports were requested"
     return None
 
 
